@@ -799,8 +799,9 @@ def regenerate_routes() -> dict:
 
 
 # generated module name -> harness module with a `regenerate()` (statement-level translators); dependencies between them
-PROG_MODULES = {"RingProg": "progtx", "RecordProg": "progtx_record", "HookProg": "progtx_hooks", "UpdaterProg": "progtx_updater", "ReducerProg": "progtx_reducer"}
-PROG_USES = {"RecordProg": ["RingProg"]}
+PROG_MODULES = {"RingProg": "progtx", "RecordProg": "progtx_record", "HookProg": "progtx_hooks", "UpdaterProg": "progtx_updater", "ReducerProg": "progtx_reducer", "LayerProg": "progtx_layer",
+                "EncoderProg": "progtx_encoder", "SelectProg": "progtx_select", "ConfigProg": "progtx_config"}
+PROG_USES = {"RecordProg": ["RingProg"], "SelectProg": ["RingProg"], "ConfigProg": ["RecordProg", "RingProg"]}
 
 
 def regenerate(mods: list[str] | None = None) -> dict:
